@@ -132,12 +132,16 @@ func (c *cdbdriver) GetLocationByMap(ipnet *net.IPNet, mapID []byte, context Con
 	dlen += 2
 
 	// Find the maskLens
-	tmpmask, _ := ipnet.Mask.Size()
+	tmpmask, maskBits := ipnet.Mask.Size()
 	maxMask = uint8(tmpmask)
 
 	if ipnet.IP.To4() != nil {
 		// We only work with v6-mapped IPs
-		maxMask += 96
+		if maskBits == 8*net.IPv4len {
+			// a 128-bit wide mask (ECS family 2 carrying a v4-mapped address)
+			// already counts the 96 prefix bits
+			maxMask += 96
+		}
 		isv4 = true
 	}
 	// maskLens DB key: "\000/"
